@@ -36,6 +36,7 @@ func runC20(c *core.Ctx) {
 	h.assertIdiom("C20.idiom assert-panics")
 	c.Clause("C20.1 every outgoing connection is verified before use")
 	h.dialerVerifiesIdentity("C20.1 dialer")
+	h.failedConnNotReused("C20.1b failed-conn-not-reused")
 	c.Clause("C20.2 listener refuses a mismatching identity and drops the connection")
 	h.listenerRefusesMismatch("C20.2 listener")
 	c.Clause("C20.3 storage exclusivity and write-once identity")
